@@ -35,6 +35,19 @@ CLAIMS = {
         "note": TB + "CoC bonus bracket is validated by the stream/oracle only.",
         "technique": "Lean 4 theorems (bracketing by induction) + three-mode differential streams",
     },
+    "C12": {
+        "text": "Sequential clause proved for ALL histories: an invariant of the two-level read/dirty state and a refinement "
+                "theorem per operation (Load, Store, LoadOrStore, LoadAndDelete, Delete, Clear, Range, Length), lifted by "
+                "induction over the operation list (history_refines): every return value and the contents after every step "
+                "equal those of an ordinary string-keyed map; Range lists exactly the live pairs once; Length is the number "
+                "of live keys. The model is tied to valuemap.go by the vmap stream, which compares every return value AND "
+                "the internal shape (read/dirty membership, entry state, amended, misses) after every operation of every "
+                "length-4 history (thorough: 5) plus random long ones. Concurrency clause: validated, not proved — recorded "
+                "concurrent histories from goroutines are checked for linearizability (porcupine) and quiescent contents.",
+        "note": TB + "Linearizability under concurrency and data races are outside the sequential theorems; the concurrent run "
+                     "is supporting validation only. Hook: VerifValueMapShape (build tag verif).",
+        "technique": "Lean 4 refinement proof (invariant + induction over histories) + shape-level differential stream + porcupine",
+    },
 }
 
 NOT_YET = {}
